@@ -77,7 +77,7 @@ def render(c, dialect):
     if dialect['new'] and c.get('queue') is not None:
         s += '{%s} ' % c['queue']
     if c.get('conn') is not None:
-        s += '<%d> ' % c['conn']
+        s += '<%s> ' % (c['conn'],)
     s += '%s%s%s%u.%s(' % (' -> ' if c['send'] else '', c['iface'], at, c['id'], c['name'])
     s += ', '.join(render_arg(a, dialect) for a in c['args'])
     return s + ')'
